@@ -402,8 +402,10 @@ class HuberNorm(Functional):
             self._call = self._call_sep
             self._prox = self._prox_sep
         else:
-            self._call_lt_branch = lambda xl2: 0.5 * xl2**2
-            self._call_gt_branch = lambda xl2: self.delta * (xl2 - self.delta / 2.0)
+            # branches are functions of the squared l2 norm so that the inner branch does not
+            # differentiate through a square root (NaN gradient at x = 0)
+            self._call_lt_branch = lambda xl2sq: 0.5 * xl2sq
+            self._call_gt_branch = lambda xl2sq: self.delta * (snp.sqrt(xl2sq) - self.delta / 2.0)
             self._call = self._call_nonsep
             self._prox = self._prox_nonsep
 
@@ -415,8 +417,10 @@ class HuberNorm(Functional):
         return snp.sum(hx)
 
     def _call_nonsep(self, x: Union[Array, BlockArray]) -> float:
-        xl2 = snp.linalg.norm(x)
-        return lax.cond(xl2 <= self.delta, self._call_lt_branch, self._call_gt_branch, xl2)
+        xl2sq = snp.sum(snp.abs(x) ** 2)
+        return lax.cond(
+            snp.sqrt(xl2sq) <= self.delta, self._call_lt_branch, self._call_gt_branch, xl2sq
+        )
 
     def __call__(self, x: Union[Array, BlockArray]) -> float:
         return self._call(x)
